@@ -3,6 +3,7 @@ package drv
 import (
 	"bufio"
 	"bytes"
+	"context"
 	"fmt"
 	"net/http"
 	"net/http/httptest"
@@ -283,6 +284,20 @@ func CheckC14(p *Pkg, e *Env, r *res.Result) {
 				for _, v := range vs {
 					req.Header.Add(k, v)
 				}
+			}
+			// a request whose context is already done (client gone, server-side deadline
+			// passed) is still answered exactly once
+			switch rapid.IntRange(0, 11).Draw(t, "ctx_state") {
+			case 0:
+				ctx, cancel := context.WithCancel(req.Context())
+				cancel()
+				req = req.WithContext(ctx)
+				r.Label("request:context-cancelled")
+			case 1:
+				ctx, cancel := context.WithDeadline(req.Context(), time.Unix(1, 0))
+				defer cancel()
+				req = req.WithContext(ctx)
+				r.Label("request:context-deadline-exceeded")
 			}
 			in.Reset()
 			rec, pan = in.Serve(req)
